@@ -88,6 +88,8 @@ def run_case(case, ctx):
     obs = replcase.observe_replace(S, P, R, case["s"], **ckw)
     w = {"case": {k: case[k] for k in ("cell", "pattern", "repl", "atol", "fraction", "replace_all", "sample")}, "n_atoms": len(S), "planted": built["planted"],
          "pattern_elements": pat["elements"], "replacement_elements": rep["elements"], "found": obs["found"], "selected": obs["selected"]}
+    for msg in obs.get("plumbing") or []:
+        ctx.fail(msg, key="option_plumbing", witness=w)
     # inputs unmodified (also when the call raised)
     for name, obj, snap in (("structure", S, snaps[0]), ("search pattern", P, snaps[1]), ("replacement pattern", R, snaps[2])):
         d = deep_diff(obj, snap)
